@@ -1762,7 +1762,7 @@ class UnitQuaternion(Quaternion):
         :type dest: UnitQuaternion
         :param shortest: Take the shortest path along the great circle
         :param s: interpolation in range [0,1]
-        :type s: float
+        :type s: float or array_like
         :return: interpolated unit quaternion
         :rtype: UnitQuaternion instance
 
@@ -1786,7 +1786,11 @@ class UnitQuaternion(Quaternion):
 
         :seealso: :func:`~spatialmath.base.quaternions.slerp`
         """
-        # TODO vectorize
+        if not base.isscalar(s):
+            # a sequence of interpolation coefficients gives the corresponding
+            # sequence of unit quaternions, as the interp method of the pose classes does
+            return UnitQuaternion([self.interp(float(sk), dest=dest, shortest=shortest).vec
+                                   for sk in base.getvector(s)], check=False)
 
         if dest is not None:
             # 2 quaternion form
